@@ -798,7 +798,7 @@ class Emitter:
             # (an `if` of the program that merely CONTAINS a log statement is NOT a log statement)
             return then.get("kind") == "CompoundStmt" and len(then.get("inner", [])) >= 1 and \
                 all(self.is_log_event_part(s) for s in then["inner"]) and \
-                any(s.get("kind") == "CallExpr" for s in then["inner"])
+                any(skip(s).get("kind") == "CallExpr" for s in then["inner"])  # skip(): ExprWithCleanups around the call
         if k == "CompoundStmt":
             ss = n.get("inner", [])
             return len(ss) >= 1 and all(self.is_log_stmt(s) for s in ss)
